@@ -529,14 +529,14 @@ Lemma run_enc_closed (c : cfgE) v : uniform_refs c = true ->
   scope (length (ce_base c)) (ns_of c) v = true ->
   fst (run_enc c v)
   = closed_run dexE (ce_base c)
-      (fun cls => ex_attr (refsrcE (ce_seed c)) (aggE (ce_mode c)) (pairE (ce_mode c) (cls_factor cls)) (ns_of c))
+      (fun cls => ex_attr (refsrcE (ce_seed c)) (aggE (ce_mode c)) (pairE (ce_mode c) (cls_factor cls * ce_tf c)) (ns_of c))
       (ex_refs (refsrcE (ce_seed c)) (ns_of c)) (ce_ret c) v.
 Proof.
   intros Hu Hs. pose proof (nsE_select c v Hu Hs) as Ens.
   apply scope_facts in Hs as (Hns & Hne & Hr).
   unfold run_enc, in_range. rewrite Hr. unfold dlsE. rewrite Ens.
-  destruct (dls_closed_form dexE (refsrcE (ce_seed c)) (attrE (ce_mode c) (cls_factor (v_cls v))) (aggE (ce_mode c))
-              (pairE (ce_mode c) (cls_factor (v_cls v))) (attrE_rowwise (ce_mode c) (cls_factor (v_cls v)))
+  destruct (dls_closed_form dexE (refsrcE (ce_seed c)) (attrE (ce_mode c) (cls_factor (v_cls v) * ce_tf c)) (aggE (ce_mode c))
+              (pairE (ce_mode c) (cls_factor (v_cls v) * ce_tf c)) (attrE_rowwise (ce_mode c) (cls_factor (v_cls v) * ce_tf c))
               (ce_ret c) (ns_of c) (v_b v)
               (select dexE (ce_base c) (v_sel v)) Hns (select_nonempty _ _ _ Hne)) as (t & E & _).
   rewrite E. reflexivity.
@@ -594,7 +594,7 @@ Proof.
     rewrite map_map.
     apply (spec_family_closed tensors_eqb tensor_eqb tensors_eqb_refl tensor_eqb_refl
              dexE (ce_base cf)
-             (fun cls => ex_attr (refsrcE (ce_seed cf)) (aggE (ce_mode cf)) (pairE (ce_mode cf) (cls_factor cls)) (ns_of cf))
+             (fun cls => ex_attr (refsrcE (ce_seed cf)) (aggE (ce_mode cf)) (pairE (ce_mode cf) (cls_factor cls * ce_tf cf)) (ns_of cf))
              (ex_refs (refsrcE (ce_seed cf)) (ns_of cf)) (ce_ret cf)).
     intros v Hs. apply run_enc_closed; assumption.
   - rewrite map_map.
@@ -643,8 +643,8 @@ Proof.
   apply scope_facts in Hs as (Hns & Hne & Hr).
   unfold run_enc, in_range. rewrite Hr. cbv zeta. unfold dlsE. rewrite Ens.
   set (X := select dexE (ce_base c) (v_sel v)).
-  destruct (dls_closed_form dexE (refsrcE (ce_seed c)) (attrE (ce_mode c) (cls_factor (v_cls v))) (aggE (ce_mode c))
-              (pairE (ce_mode c) (cls_factor (v_cls v))) (attrE_rowwise (ce_mode c) (cls_factor (v_cls v)))
+  destruct (dls_closed_form dexE (refsrcE (ce_seed c)) (attrE (ce_mode c) (cls_factor (v_cls v) * ce_tf c)) (aggE (ce_mode c))
+              (pairE (ce_mode c) (cls_factor (v_cls v) * ce_tf c)) (attrE_rowwise (ce_mode c) (cls_factor (v_cls v) * ce_tf c))
               (ce_ret c) (ns_of c) (v_b v) X Hns (select_nonempty _ _ _ Hne)) as (t & E & _ & Hix).
   rewrite E. cbn [snd]. rewrite map_map. rewrite Hseed.
   erewrite map_ext by (intros fl; apply render_refcalls).
